@@ -60,6 +60,10 @@ POOLS = {
 }
 
 
+# constraint names: in every naming but the base one, creation order is NOT lexicographic order
+CTC_POOL = ['zz last', 'mm mid', 'Zeta', 'aa first', 'c10', 'c2', 'Alpha', 'b', 'a', 'Constraint 10', 'Constraint 2', '0']
+
+
 def ascii_escape(s):
     return json.dumps(s, ensure_ascii=True)[1:-1]
 
@@ -117,6 +121,21 @@ class Naming:
         self.fwd[a] = c
         self.rev[c] = a
         return c
+
+    def conc_ctc(self, a):
+        """abstract constraint name (c1, c2, i1, ...) -> concrete; literal under the base naming"""
+        if self.k == 0 or not (a[:1] in 'ci' and a[1:].isdigit()):
+            return a
+        key = 'ctc:' + a
+        if key not in self.fwd:
+            c = CTC_POOL[(int(a[1:]) - 1 + (6 if a[0] == 'i' else 0)) % len(CTC_POOL)]
+            self.fwd[key] = c
+            self.rev['ctc:' + c] = a
+        return self.fwd[key]
+
+    def abs_ctc(self, c):
+        """concrete constraint name -> abstract (names the library derives itself stay as they are)"""
+        return self.rev.get('ctc:' + c, ascii_escape(c)) if isinstance(c, str) else '?n:<%s>' % type(c).__name__
 
     def abs(self, c):
         """concrete -> abstract; unknown strings become '?n:' tokens."""
